@@ -50,9 +50,14 @@ def parsePyInt (s : List Char) : Option Int :=
   | '+' :: r => (parseDigitsUs 0 false r).map (fun n => (n : Int))
   | _ => (parseDigitsUs 0 false s).map (fun n => (n : Int))
 
-/-- plain decimal floats with at most two decimals: `-12.5`, `0.25`, `3.0` (hundredths) -/
-def parseFloat2 (s : List Char) : Option Int :=
-  let (neg, body) := match s with | '-' :: r => (true, r) | '+' :: r => (false, r) | _ => (false, s)
+/-- sign of a float literal and the rest -/
+def signSplit : List Char → Bool × List Char
+  | '-' :: r => (true, r)
+  | '+' :: r => (false, r)
+  | s => (false, s)
+
+/-- digits '.' one or two digits, in hundredths -/
+def floatBody (neg : Bool) (body : List Char) : Option Int :=
   match splitChar '.' body with
   | [ip, fp] =>
     match parseNat ip, fp with
@@ -61,6 +66,9 @@ def parseFloat2 (s : List Char) : Option Int :=
         some ((if neg then -1 else 1) * ((i * 100 + (a.toNat - 48) * 10 + (b.toNat - 48) : Nat) : Int)) else none
     | _, _ => none
   | _ => none
+
+/-- plain decimal floats with at most two decimals: `-12.5`, `0.25`, `3.0` (hundredths) -/
+def parseFloat2 (s : List Char) : Option Int := floatBody (signSplit s).1 (signSplit s).2
 
 /-- `_parse_time` on the supported syntaxes -/
 def parseTime (s : List Char) : Option PyVal :=
